@@ -11,8 +11,8 @@ from ..core import fmt_list, parse_rats, frac, err_kind, close, exact, floats
 
 ID = "C12"
 THREADS = True       # part of the cases run concurrently in threads of one interpreter (the schedule dimension)
-MODULES = ["TWV.Tie.ArrayHelpers", "TWV.Properties.C12"]
-TRANSLATORS = ["t8_arrays"]
+MODULES = ["TWV.Tie.ArrayHelpers", "TWV.Properties.C12", "TWV.Tie.WeaverStep"]
+TRANSLATORS = ["t8_arrays", "t9_weaver"]
 RULE = ("random series of 2..40 points, uniform / non-uniform, integer or float abscissae, r in 1..12, through process.repeat "
         "and through Weaver.repeat (working and reference series), plus all factor pairs a*b <= 12 for the composition law. "
         "Non-trivial: r >= 2 and >= 3 points; distinct by full input.")
